@@ -22,7 +22,9 @@ Inductive srck : Type :=
 | KNoDrop (arg : nat)                   (* ManuallyDrop::new(arg).iter() *)
 | KOwnedSeq (arg : nat)                 (* the argument iterated by value inside zip(..) *)
 | KDest (pos : string)                  (* builder.iter_position(): destination slots *)
-| KEnumerate.                           (* .enumerate() *)
+| KEnumerate                            (* .enumerate() *)
+| KIterBack (arg : nat) (pos : string). (* the live window of a by-value iterator walked from its back end
+                                           (slice.iter().rfold): pos is index_back relative to the window *)
 
 Inductive atom : Type :=
 | AVar (v : string)
@@ -36,6 +38,7 @@ Inductive cst : Type :=
 | CRead (v r : string)                  (* let v = ptr::read(r) *)
 | CBump (p : string)                    (* *p += 1 *)
 | CSetPos (d s : string)                (* *d = *s *)
+| CDec (p : string)                     (* *p -= 1 *)
 | CWrite (d : string) (e : cexp)        (* d.write(e) *)
 | CRet (e : cexp).                      (* the closure's tail expression *)
 
@@ -126,6 +129,13 @@ Section Run.
         end
       | KDest _ => Some (mkCl (set (fst s) (VDstRef i) (c_env c)) (c_held c) (c_st c))
       | KEnumerate => Some (mkCl (set (fst s) (VIdx i) (c_env c)) (c_held c) (c_st c))
+      | KIterBack a _ =>
+        match nth_error args a with
+        | Some l => if Nat.ltb i (length l)
+                    then Some (mkCl (set (fst s) (VSlotRef a (length l - 1 - i)) (c_env c)) (c_held c) (c_st c))
+                    else None
+        | None => None
+        end
       end
     end.
 
@@ -227,6 +237,11 @@ Section Run.
         | Some n, Some _ => exec_body fold_sink (upd_st c (with_pos (c_st c) (set d n (s_pos (c_st c))))) rest
         | _, _ => (RStuck, c_st c)
         end
+      | CDec p =>
+        match lookup p (s_pos (c_st c)) with
+        | Some (S n) => exec_body fold_sink (upd_st c (with_pos (c_st c) (set p n (s_pos (c_st c))))) rest
+        | _ => (RStuck, c_st c)
+        end
       | CWrite d e =>
         match lookup d (c_env c), eval_cexp fold_sink c e with
         | Some (VDstRef _), EVal (VRet z) c' =>
@@ -261,7 +276,11 @@ Section Run.
     end.
 
   Definition init_pos (P : pipe) : list (string * nat) :=
-    flat_map (fun s => match snd s with KConsumer _ p | KDest p => [(p, 0)] | _ => [] end) (p_srcs P).
+    flat_map (fun s => match snd s with
+                       | KConsumer _ p | KDest p => [(p, 0)]
+                       | KIterBack a p => [(p, match nth_error args a with Some l => length l | None => 0 end)]
+                       | _ => []
+                       end) (p_srcs P).
 
   Definition init_state (P : pipe) (init : Z) : pstate := mkP (init_pos P) [] [] [] init.
 
@@ -286,6 +305,11 @@ Section Run.
         end
       | KOwnedSeq a =>
         if seq_owned then match nth_error args a with Some l => map EDrop (skipn calls l) | None => [] end else []
+      | KIterBack a p =>
+        match nth_error args a, lookup p (s_pos st) with
+        | Some l, Some n => map EDrop (firstn n l)
+        | _, _ => []
+        end
       | _ => []
       end) (rev (p_srcs P)).
 
